@@ -27,6 +27,7 @@ def gen_program(rng, devs):
     dev = rng.choice(DEVS)
     info = devs[dev]
     lines = ['.device %s' % dev] if dev else []
+    lines += ['.macro c02nop', '  nop', '.endm', '.macro c02pair', '  nop', '  .db 7', '.endm']      # one-word and two-word expansions between labels
     off = {'c': 0, 'd': info['ram_start'], 'e': 0}
     code, ee = {}, {}          # address(byte) -> byte
     labels = {}
@@ -85,19 +86,35 @@ def gen_program(rng, devs):
                         a = rng.randrange(0, 4096)
                         lines.append('  %s %d' % (two, a))
                         reqs.append((2 * off['c'], two, off['c'], ['v%d' % a], 0)); off['c'] += 2
+                elif r < .72:
+                    # macro calls: the expansion's items land like written items (1 word; 1 word + a padded .db)
+                    if rng.random() < .6:
+                        lines.append('  c02nop'); reqs.append((2 * off['c'], 'nop', off['c'], [], 0)); off['c'] += 1
+                    else:
+                        lines.append('  C02PAIR'); reqs.append((2 * off['c'], 'nop', off['c'], [], 0)); off['c'] += 1
+                        code[2 * off['c']] = 7; code[2 * off['c'] + 1] = 0; off['c'] += 1
                 else:
                     bs, text = gen_data(rng)
                     if text.startswith('.db') and len(bs) % 2 == 1: bs = bs + [0]
                     for j, b in enumerate(bs): code[2 * off['c'] + j] = b
-                    lines.append('  ' + text); off['c'] += len(bs) // 2
+                    pre = '  '
+                    if rng.random() < .25:
+                        nlab += 1; nm = 'L%d' % nlab; labels[nm] = off['c']; pre = '%s: ' % rng.choice([nm, nm.lower()])    # label on the data line
+                    lines.append(pre + text); off['c'] += len(bs) // 2
             elif seg == 'd':
                 n = rng.choice([0, 1, 2, 3, 7, 16])
-                lines.append('  .byte %d' % n); off['d'] += n
+                pre = '  '
+                if rng.random() < .3:
+                    nlab += 1; nm = 'L%d' % nlab; labels[nm] = off['d']; pre = '%s: ' % rng.choice([nm, nm.upper()])
+                lines.append(pre + '.byte %s' % rng.choice(['%d' % n, '%d + %d' % (n // 2, n - n // 2), '0x%x' % n])); off['d'] += n
             else:
                 if r < .6:
                     bs, text = gen_data(rng)
                     for j, b in enumerate(bs): ee[off['e'] + j] = b
-                    lines.append('  ' + text); off['e'] += len(bs)
+                    pre = '  '
+                    if rng.random() < .25:
+                        nlab += 1; nm = 'L%d' % nlab; labels[nm] = off['e']; pre = '%s: ' % nm
+                    lines.append(pre + text); off['e'] += len(bs)
                 else:
                     n = rng.choice([0, 1, 2, 5])
                     for j in range(n): ee[off['e'] + j] = 0
